@@ -712,14 +712,11 @@ func (g *genModel) listExpr(v ssa.Value) (*projection, error) {
 	if x == nil {
 		return nil, fmt.Errorf("appended element not found")
 	}
-	elemLocal, elemField, err := fieldLoadOfLocalCopy(x)
+	// the appended value is field F of the current element: of its per-iteration copy (for _, e := range src)
+	// or of src[i] itself (for i := range src)
+	src, elemKey, elemField, err := g.elemFieldOf(x, hdr)
 	if err != nil {
 		return nil, fmt.Errorf("%s: appended value: %v", g.p.pos(step.Pos()), err)
-	}
-	// the local copy is *(&src[idx]) with idx the range index of src
-	src, err := g.rangeCopySource(elemLocal, hdr)
-	if err != nil {
-		return nil, err
 	}
 	// condition: exactly one If in the loop body
 	pr := &projection{}
@@ -741,8 +738,8 @@ func (g *genModel) listExpr(v ssa.Value) (*projection, error) {
 		}
 	case 1:
 		ifi := ifs[0]
-		cl, cf, err := fieldLoadOfLocalCopy(ifi.Cond)
-		if err != nil || cl != elemLocal {
+		csrc, ckey, cf, err := g.elemFieldOf(ifi.Cond, hdr)
+		if err != nil || csrc != src || ckey != elemKey {
 			return nil, fmt.Errorf("%s: filter condition is not a bool field of the current element", g.p.pos(ifi.Pos()))
 		}
 		ib := ifi.Block()
@@ -826,6 +823,42 @@ func fieldLoadOfLocalCopy(v ssa.Value) (*ssa.Alloc, *types.Var, error) {
 	}
 	st := al.Type().Underlying().(*types.Pointer).Elem().Underlying().(*types.Struct)
 	return al, st.Field(fa.Field), nil
+}
+
+// elemFieldOf: v is the load of field F of the current element of the range loop with header hdr — either of
+// the loop's local copy of the element or of src[idx] directly. Returns the ranged list, a key identifying
+// "the current element" (the local copy, or the index value) and F.
+func (g *genModel) elemFieldOf(v ssa.Value, hdr *ssa.BasicBlock) (ssa.Value, ssa.Value, *types.Var, error) {
+	if al, fld, err := fieldLoadOfLocalCopy(v); err == nil {
+		src, err := g.rangeCopySource(al, hdr)
+		if err != nil {
+			return nil, nil, nil, err
+		}
+		return src, al, fld, nil
+	}
+	ld, ok := v.(*ssa.UnOp)
+	if !ok || ld.Op != token.MUL {
+		return nil, nil, nil, fmt.Errorf("not a field load (%s)", v)
+	}
+	fa, ok := ld.X.(*ssa.FieldAddr)
+	if !ok {
+		return nil, nil, nil, fmt.Errorf("not a field load")
+	}
+	ia, ok := fa.X.(*ssa.IndexAddr)
+	if !ok {
+		return nil, nil, nil, fmt.Errorf("field of a non-local")
+	}
+	if err := isRangeIndexOf(ia.Index, ia.X); err != nil {
+		return nil, nil, nil, err
+	}
+	if h := rangeHeaderOf(ia.Index); h != hdr {
+		return nil, nil, nil, fmt.Errorf("element is taken from a different loop")
+	}
+	st, ok := ia.Type().Underlying().(*types.Pointer).Elem().Underlying().(*types.Struct)
+	if !ok {
+		return nil, nil, nil, fmt.Errorf("element is not a struct")
+	}
+	return ia.X, ia.Index, st.Field(fa.Field), nil
 }
 
 // rangeCopySource: local receives exactly one store, *local = *(&src[idx]) inside the loop with header hdr,
@@ -969,10 +1002,31 @@ func (g *genModel) docFromVal(v ssa.Value, d int) (*ssa.Alloc, error) {
 			return nil, fmt.Errorf("decoded document comes from a call that cannot be followed")
 		}
 		h := call.Call.StaticCallee()
+		// the loader's parameters (the file name) stand for this call's arguments
+		if g.bind == nil {
+			g.bind = map[*ssa.Parameter]ssa.Value{}
+		}
+		for i, prm := range h.Params {
+			if i < len(call.Call.Args) {
+				g.bind[prm] = call.Call.Args[i]
+			}
+		}
 		var doc *ssa.Alloc
 		for _, b := range h.Blocks {
 			ret, ok := b.Instrs[len(b.Instrs)-1].(*ssa.Return)
 			if !ok || idx >= len(ret.Results) {
+				continue
+			}
+			// a return that carries a non-nil error is the failure path: what it returns besides is not used
+			failing := false
+			for _, rv := range ret.Results {
+				if isErrorType(rv.Type()) {
+					if c, isC := rv.(*ssa.Const); !isC || !c.IsNil() {
+						failing = true
+					}
+				}
+			}
+			if failing {
 				continue
 			}
 			ld, ok := ret.Results[idx].(*ssa.UnOp)
@@ -1027,7 +1081,7 @@ func (g *genModel) decodedFrom(doc *ssa.Alloc) (string, error) {
 					if !ok || op.Call.StaticCallee() == nil || op.Call.StaticCallee().String() != "os.Open" {
 						return "", fmt.Errorf("decoder source is not the result of os.Open")
 					}
-					name, ok := constString(op.Call.Args[0])
+					name, ok := constString(g.deref(op.Call.Args[0]))
 					if !ok {
 						return "", fmt.Errorf("os.Open with a non-constant name")
 					}
